@@ -126,6 +126,32 @@ class Frame:
         return self.crate.types[self.body["locals"][local]["ty"]]
 
 
+def natural_loop(body, H):
+    """blocks of the natural loop(s) with header H (normal edges)."""
+    key = ("_loop", H)
+    if key in body:
+        return body[key]
+    from . import cfg as G
+    sc = G.succs(body)
+    preds = {}
+    for a, bs_ in sc.items():
+        if body["blocks"][a]["cleanup"]:
+            continue
+        for b in bs_:
+            preds.setdefault(b, []).append(a)
+    dom = G.dominators(body)
+    nodes = {H}
+    stack = [a for a in preds.get(H, []) if a in dom and H in dom[a]]
+    while stack:
+        n = stack.pop()
+        if n in nodes:
+            continue
+        nodes.add(n)
+        stack.extend(preds.get(n, []))
+    body[key] = nodes
+    return nodes
+
+
 def loop_headers(body):
     if "_headers" in body:
         return body["_headers"]
@@ -728,8 +754,9 @@ class Interp:
         raise Undecided("unop %s on %s" % (op, a[0]))
 
     # ------------------------------------------------------------ execution
-    def exec_from(self, st, fr, bb, stop_at=None, start=False):
-        """explore paths from block bb; returns list of ('return'|'stop'|'panic', state, value)."""
+    def exec_from(self, st, fr, bb, stop_at=None, start=False, region=None):
+        """explore paths from block bb; returns list of ('return'|'stop'|'panic'|'exit', state, value).
+        region: optional set of blocks; a path leaving it ends as ('exit', state, block)."""
         out = []
         work = [(st, bb, start)]
         steps = 0
@@ -741,11 +768,19 @@ class Interp:
             if bb == stop_at and not first:
                 out.append(("stop", st, None))
                 continue
+            if region is not None and bb not in region:
+                out.append(("exit", st, bb))
+                continue
             key = (fr.id, bb)
             if bb in fr.headers and st.loopmode.get(key) is None:
                 for s2 in self.do_loop(st, fr, bb):
                     work.append((s2, bb, True))
                 continue
+            if bb in fr.headers and st.loopmode.get(key, ("",))[0] == "done":
+                m = st.loopmode[key]
+                if len(m) > 1:
+                    raise Undecided("summarised loop in %s is entered again after its exit" % fr.body["path"])
+                st.loopmode[key] = ("done", 1)
             for item in self.exec_block(st, fr, bb):
                 if item[0] == "goto":
                     work.append((item[1], item[2], False))
